@@ -5,6 +5,7 @@ package main
 
 import (
 	"encoding/hex"
+	"encoding/json"
 	"fmt"
 	"math"
 	"strings"
@@ -165,6 +166,12 @@ func validatorsCase(app *fx.App, tr *fx.Trace, r *fx.Rng) {
 			val, err := sk.GetValidator(ctx, v.ValAddress)
 			fx.Must(err)
 			amt := sdkmath.NewInt(int64(r.PickInt(1, 1000, 1_000_000, 99_000_000)))
+			if r.Chance(1, 12) {
+				// a stake that does not fit 64 bits: the sampler's weights are uint64, the request must be refused, not
+				// sampled against the low 64 bits
+				amt = sdkmath.NewIntFromUint64(math.MaxUint64).AddRaw(int64(r.PickInt(1, 2, 1001)))
+				tr.Tag("stake-above-uint64")
+			}
 			app.Fund(ctx, bandtesting.FeePayer.Address, "uband", amt)
 			_, err = sk.Delegate(ctx, bandtesting.FeePayer.Address, amt, stakingtypes.Unbonded, val, true)
 			fx.Must(err)
@@ -209,7 +216,7 @@ func validatorsCase(app *fx.App, tr *fx.Trace, r *fx.Rng) {
 		act := ok.GetValidatorStatus(ctx, bandtesting.Validators[i].ValAddress).IsActive
 		all = append(all, []any{i, true, act})
 		if act {
-			elig = append(elig, []any{i, fx.U(val.GetTokens().Uint64())})
+			elig = append(elig, []any{i, json.Number(val.GetTokens().String())})
 		}
 		return false
 	}))
